@@ -50,3 +50,19 @@ pub fn scan_select_model(words: &[u64], start_word: usize, remaining: usize) -> 
     }
     None
 }
+
+/// `Vec::push` without the growth path. CBMC cannot see that a vector created
+/// with `with_capacity(n)` never outgrows it, so every `push` drags in
+/// `RawVec::grow_one` -> `realloc` and turns the buffer pointer into a choice
+/// between allocations; reading the result back then costs > 12 GB (measured:
+/// one JSON builder on 7 bytes, 174 k steps / out of memory vs 29 k steps / 5 s).
+/// This stand-in pushes in place and ASSERTS that the capacity suffices, so a
+/// push that would need to grow is a reported failure, never silently dropped.
+pub fn push_no_grow<T, A: core::alloc::Allocator>(v: &mut Vec<T, A>, x: T) {
+    assert!(v.len() < v.capacity(), "push would grow the vector");
+    unsafe {
+        let l = v.len();
+        core::ptr::write(v.as_mut_ptr().add(l), x);
+        v.set_len(l + 1);
+    }
+}
